@@ -328,19 +328,31 @@ class ReusePart(E1Part):
                     # a death may be detected between the caller's look at the previous instance and the decision
                     next_id = max(next_id, after["id"] + 1)
                     continue
-                prev = "none" if b is None else f"{b['id']}:{b['mw']}:{int(b['broken'])}:{int(b['shutdown'])}:{int(b['kwargs_same'])}"
+                # identities of the keyword arguments: what the module remembered before the call, what this call asks for,
+                # what it remembers afterwards
+                kws = []
+
+                def kwid(d):
+                    k = json.dumps(d, sort_keys=True)
+                    if k not in kws:
+                        kws.append(k)
+                    return kws.index(k) + 1
+                prev = "none" if b is None else f"{b['id']}:{b['mw']}:{int(b['broken'])}:{int(b['shutdown'])}:{kwid(b.get('stored'))}"
                 reuse = {True: "yes", False: "no"}.get(a.get("reuse", "auto"), "auto")
-                lines.append(f"call {prev} {next_id} {r['cpu_count']} {a.get('max_workers') or 'none'} {reuse} {int(a.get('kill_workers', False))}")
+                lines.append(f"callk {prev} {next_id} {r['cpu_count']} {a.get('max_workers') or 'none'} {reuse} "
+                             f"{int(a.get('kill_workers', False))} {kwid(after.get('want_cfg'))}")
                 if b is None:
                     obs = f"created {after['id']}"
                 elif after["id"] == b["id"]:
                     obs = f"reused {b['id']} {b['mw']} {after['mw']}"
                 else:
                     obs = f"replaced {b['id']} {int(a.get('kill_workers', False))} {after['id']}"
+                obs += f" kw={kwid(after.get('stored'))}"
                 refs.append((obs, r, c))
                 next_id = max(next_id, after["id"] + 1)
                 if b is not None and after["id"] == b["id"] and b["started"] and r["clean"] and not c["faults_during"] \
-                        and not b["broken"] and not b["shutdown"]:
+                        and not b["broken"] and not b["shutdown"] and r["family"] != "reusecb":
+                    # (reusecb: a done-callback's own request may resize the pool while this call waits for the lock)
                     lines.append(f"resize {len(b['pids'])} {after['mw']}")
                     kept = len(set(after["pids"]) & set(b["pids"]))
                     refs.append((("resize", kept, len(after["pids"])), r, c))
